@@ -1791,14 +1791,17 @@ class DocutilsRenderer(RendererProtocol):
         # pad the line numbers artificially so they offset with the fence block
         pseudosource = ("\n" * token_line(token)) + token.content
         # actually parse the rst into our document
-        # (if the shared reporter has no `get_source_and_line`, the rST state machine
-        # installs its own, which must not outlive the parse of this block)
-        has_line_func = hasattr(self.reporter, "get_source_and_line")
+        # (the rST state machine installs its `get_source_and_line` only if the shared
+        # reporter has none: the one left by an earlier role/directive or set by an
+        # enclosing include does not know the lines a `.. include::` splices in,
+        # so it is set aside; the rST one must not outlive the parse of this block)
+        line_func = vars(self.reporter).pop("get_source_and_line", None)
         try:
             MockRSTParser().parse(pseudosource, newdoc)
         finally:
-            if not has_line_func and hasattr(self.reporter, "get_source_and_line"):
-                del self.reporter.get_source_and_line
+            vars(self.reporter).pop("get_source_and_line", None)
+            if line_func is not None:
+                self.reporter.get_source_and_line = line_func
         for node in newdoc:
             if node["names"]:
                 self.document.note_explicit_target(node, node)
